@@ -107,7 +107,10 @@ def drive(rec, ns, quick):
                            "res": mod_rows(z, qc).tolist(), "_what": "convolution theorem n=%d" % n})
             rec.case(("conv", n))
         # --- round trip and linearity on extremal lanes, all positions
+        bulk, bulk_mism = {}, {}
         mixes = (["blocks"] * 4 + ["mix"] * (10 if quick else 60) + ["mixlane"] * (6 if quick else 30)) if n >= 4 else []
+        if n in (2048, 4096):        # the smallest dimensions with a reducing pass: many more of them (a wrap needs the right four inputs AND luck in the low bits)
+            mixes += ["mix"] * (500 if quick else 3000) + ["mixlane"] * (300 if quick else 2000)
         for kind in ["ones", "alt", "near", "random"][:(2 if (quick and n > 4096) else 4)] + mixes:
             x = pattern(n, kind, rng, qc)
             if not rec.progress("q120 ntt+intt n=%d pattern=%s" % (n, kind)):
@@ -119,6 +122,10 @@ def drive(rec, ns, quick):
                 rec.violation("q120 ntt/intt n=%d wrote outside its data" % n, {"n": n})
                 continue
             mism = int((mod_rows(rt, qc) != mod_rows(x, qc)).sum())
+            bulk[kind] = bulk.get(kind, 0) + 1
+            if bulk[kind] > 70:          # the bulk repetitions: round trip only, one summary at the end
+                bulk_mism[kind] = bulk_mism.get(kind, 0) + mism
+                continue
             # linearity: NTT(x) + NTT(y) = NTT(x + y) modulo each prime (lanes halved so that sums do not wrap)
             y = pattern(n, "random" if kind not in ("blocks", "mix", "mixlane") else kind, rng, qc)
             xh, yh = x >> np.uint64(1), y >> np.uint64(1)
@@ -127,6 +134,9 @@ def drive(rec, ns, quick):
             mism += int((lhs != rhs).sum())
             events.append({"e": "NttSummary", "n": n, "pattern": kind, "mismatches": mism,
                            "_what": "round trip + linearity n=%d pattern=%s" % (n, kind)})
+        for kind, mm in bulk_mism.items():
+            events.append({"e": "NttSummary", "n": n, "pattern": kind, "mismatches": mm,
+                           "_what": "round trips n=%d pattern=%s (%d further repetitions)" % (n, kind, bulk[kind] - 70)})
     rec.data["events"] = events
 
 
